@@ -832,10 +832,12 @@ class TypeVariable(TypeInstance):
 
                 t.wildcard = False
 
+                # constraint re-checks triggered by the first bound may have
+                # resolved `t` already: go through unify, which follows it
                 if self.lower:
-                    t.above(self.lower)
+                    self.lower().unify(t, subtype=True)
                 if self.upper:
-                    t.below(self.upper)
+                    t.unify(self.upper(), subtype=True)
 
             elif isinstance(t, TypeOperation):
                 if t.basic:
